@@ -35,14 +35,16 @@ CONSTANTS
   Behs,             \* child behaviours explored
   Holds,            \* {FALSE}, or BOOLEAN: the generator/driver may keep a terminal status queued while it sends requests
   MaxReq,           \* number of requests after LAUNCH
+  Reqs,             \* the requests explored (subset of Requests)
   DevStopNilDeref,  \* TRUE: ensureBasicTaskKilled dereferences taskCmd.ProcessState while it is nil (tree as it is)
+  DevReaperField,   \* TRUE: the reaper goroutine of startBasicTask reads t.taskCmd when it starts, not before (tree as it is)
   Known             \* violation classes <<inv, kind, beh, r, inst, nth>> recorded as open findings
 
 VARIABLES kind, beh, hold, launched, exec, active, timer, cmd, child, how, grand, ps, pend,
-          sent, procd, btt, hs, rel, vstart, panBy, termBy, doneBy, killBy, closeBy, skDone, killAt, rpc, lpc, dev, nreq, cnt
+          sent, procd, btt, hs, rel, vstart, panBy, termBy, doneBy, killBy, closeBy, skDone, killAt, rpc, lpc, dev, nreq, cnt, rst, rfin
 
 vars == <<kind, beh, hold, launched, exec, active, timer, cmd, child, how, grand, ps, pend,
-          sent, procd, btt, hs, rel, vstart, panBy, termBy, doneBy, killBy, closeBy, skDone, killAt, rpc, lpc, dev, nreq, cnt>>
+          sent, procd, btt, hs, rel, vstart, panBy, termBy, doneBy, killBy, closeBy, skDone, killAt, rpc, lpc, dev, nreq, cnt, rst, rfin>>
 
 Requests == {"CONFIGURE", "START", "STOP", "Trigger", "Kill"}
 NoReq == [r |-> "none", inst |-> "none", nth |-> 0]
@@ -56,7 +58,7 @@ S == [kind |-> kind, beh |-> beh, hold |-> hold, launched |-> launched, exec |->
       timer |-> timer, cmd |-> cmd, child |-> child, how |-> how, grand |-> grand, ps |-> ps, pend |-> pend,
       sent |-> sent, procd |-> procd, btt |-> btt, hs |-> hs, rel |-> rel, vstart |-> vstart, panBy |-> panBy,
       termBy |-> termBy, doneBy |-> doneBy, killBy |-> killBy, closeBy |-> closeBy, skDone |-> skDone, killAt |-> killAt, rpc |-> rpc, lpc |-> lpc, dev |-> dev,
-      nreq |-> nreq, cnt |-> cnt]
+      nreq |-> nreq, cnt |-> cnt, rst |-> rst, rfin |-> rfin]
 
 Set(t) ==
   /\ kind' = t.kind /\ beh' = t.beh /\ hold' = t.hold /\ launched' = t.launched /\ exec' = t.exec
@@ -64,7 +66,7 @@ Set(t) ==
   /\ grand' = t.grand /\ ps' = t.ps /\ pend' = t.pend /\ sent' = t.sent /\ procd' = t.procd
   /\ btt' = t.btt /\ hs' = t.hs /\ rel' = t.rel /\ vstart' = t.vstart /\ panBy' = t.panBy /\ termBy' = t.termBy
   /\ doneBy' = t.doneBy /\ killBy' = t.killBy /\ closeBy' = t.closeBy /\ skDone' = t.skDone /\ killAt' = t.killAt /\ rpc' = t.rpc /\ lpc' = t.lpc
-  /\ dev' = t.dev /\ nreq' = t.nreq /\ cnt' = t.cnt
+  /\ dev' = t.dev /\ nreq' = t.nreq /\ cnt' = t.cnt /\ rst' = t.rst /\ rfin' = t.rfin
 
 Is(t) ==
   /\ kind = t.kind /\ beh = t.beh /\ hold = t.hold /\ launched = t.launched /\ exec = t.exec
@@ -72,14 +74,14 @@ Is(t) ==
   /\ grand = t.grand /\ ps = t.ps /\ pend = t.pend /\ sent = t.sent /\ procd = t.procd
   /\ btt = t.btt /\ hs = t.hs /\ rel = t.rel /\ vstart = t.vstart /\ panBy = t.panBy /\ termBy = t.termBy
   /\ doneBy = t.doneBy /\ killBy = t.killBy /\ closeBy = t.closeBy /\ skDone = t.skDone /\ killAt = t.killAt /\ rpc = t.rpc /\ lpc = t.lpc
-  /\ dev = t.dev /\ nreq = t.nreq /\ cnt = t.cnt
+  /\ dev = t.dev /\ nreq = t.nreq /\ cnt = t.cnt /\ rst = t.rst /\ rfin = t.rfin
 
 InitState(k, b, h) ==
   [kind |-> k, beh |-> b, hold |-> h, launched |-> FALSE, exec |-> "ok", active |-> FALSE, timer |-> FALSE,
    cmd |-> FALSE, child |-> "none", how |-> "none", grand |-> FALSE, ps |-> "nil", pend |-> "none",
    sent |-> <<>>, procd |-> 0, btt |-> <<>>, hs |-> <<>>, rel |-> FALSE, vstart |-> FALSE, panBy |-> NoReq,
    termBy |-> NoReq, doneBy |-> NoReq, killBy |-> NoReq, closeBy |-> NoReq, skDone |-> FALSE, killAt |-> 0, rpc |-> "nil", lpc |-> "none", dev |-> "none",
-   nreq |-> 0, cnt |-> [r \in Requests |-> 0]]
+   nreq |-> 0, cnt |-> [r \in Requests |-> 0], rst |-> "none", rfin |-> [final |-> "none", vol |-> FALSE]]
 
 BehsOf(k) == IF k = "ctl" THEN Behs \cap {"sleep", "ignore", "fork", "exit0", "exit3", "noready", "stuck"}
                           ELSE Behs \cap {"sleep", "ignore", "fork", "exit0", "exit3", "crash"}
@@ -92,7 +94,7 @@ Inst(s) ==
     THEN IF HasTerminal(s.sent) THEN "reaped"
          ELSE IF s.rel THEN "exiting"
          ELSE IF Has(s.sent, "RUNNING") THEN "running"
-         ELSE IF s.rpc = "up" \/ s.lpc \in {"poll", "wait", "done"} THEN "polling"
+         ELSE IF s.rpc = "up" \/ s.lpc \in {"poll", "wait", "send", "done"} THEN "polling"
          ELSE "starting"
     ELSE IF ~Has(s.sent, "RUNNING") THEN "launching"
          ELSE IF Len(s.btt) > 0 THEN "reaped"
@@ -130,7 +132,7 @@ DoReq(s, r) ==
     THEN LET q == [r |-> r, inst |-> Inst(s), nth |-> s.cnt[r] + 1] IN
          IF s.active
            THEN {[s EXCEPT !.nreq = @ + 1, !.cnt[r] = @ + 1,
-                           !.hs = Append(@, [r |-> r, inst |-> q.inst, nth |-> q.nth, pc |-> "body", reached |-> ""])]}
+                           !.hs = Append(@, [r |-> r, inst |-> q.inst, nth |-> q.nth, pc |-> "body", reached |-> "", err |-> FALSE])]}
            ELSE {[s EXCEPT !.nreq = @ + 1]}
     ELSE {}
 Delivered(s) == s.active
@@ -160,18 +162,25 @@ DoTimer(s) ==
 Drop(s, i) == [s EXCEPT !.hs = RemoveAt(@, i)]
 ReqOf(s, i) == [r |-> s.hs[i].r, inst |-> s.hs[i].inst, nth |-> s.hs[i].nth]   \* whom to blame for what handler i does
 (* a Kill starts acting on a task whose child has not gone away on its own: from here on FAILED is wrong *)
-KillAt(s) == IF s.killAt = 0 /\ ~s.rel /\ ~(s.vstart /\ s.beh = "crash") /\ s.child \in {"none", "running"}
+KillAt(s) == IF s.killAt = 0 /\ ~s.rel /\ ~(s.beh = "crash" /\ s.child # "none") /\ s.child \in {"none", "running"}
                THEN Len(s.sent) + 1 ELSE s.killAt
 IsBody(s, i, rs) == i \in 1..Len(s.hs) /\ s.hs[i].pc = "body" /\ s.hs[i].r \in rs /\ Ok(s)
 
 (* transition function default branch / HookTask: "any transition is valid and executed as NOOP" *)
+Answer(s, i, e) == [s EXCEPT !.hs[i].pc = "resp", !.hs[i].err = e]    \* the response is sent after the effect
 DoNoopBody(s, i) ==
-  IF IsBody(s, i, {"CONFIGURE"}) /\ s.kind # "ctl" THEN {Drop(s, i)} ELSE {}
+  IF IsBody(s, i, {"CONFIGURE"}) /\ s.kind # "ctl" THEN {Answer(s, i, FALSE)} ELSE {}
+
+(* handleMessageEvent goroutine: json.Marshal(response); state.cli.Send(MESSAGE) *)
+DoRespond(s, i) ==
+  IF i \in 1..Len(s.hs) /\ s.hs[i].pc = "resp" /\ Ok(s)
+    THEN {[Drop(s, i) EXCEPT !.vstart = IF s.hs[i].r \in {"START", "Trigger"} /\ s.kind # "ctl" /\ ~s.hs[i].err THEN TRUE ELSE @]}
+    ELSE {}
 
 (* startBasicTask: prepareTaskCmd (Setpgid), Start, reaper goroutine.  (START for basic, Trigger for hook) *)
 DoStartBody(s, i) ==
   IF IsBody(s, i, {"START", "Trigger"}) /\ s.kind # "ctl"
-    THEN {[Drop(s, i) EXCEPT !.cmd = TRUE, !.ps = "nil", !.vstart = TRUE, !.skDone = FALSE,
+    THEN {[Answer(s, i, FALSE) EXCEPT !.cmd = TRUE, !.ps = "nil", !.skDone = FALSE, !.rst = "pending",
                              !.child = IF s.beh = "crash" THEN "exiting" ELSE "running",
                              !.how = IF s.beh = "crash" THEN "e127" ELSE "none",
                              !.grand = (s.beh = "fork")]}
@@ -184,24 +193,26 @@ GroupThere(s) == s.child \in {"running", "exiting"} \/ s.grand   \* ("waited": t
 StopKillPath(s, i) ==
   IF s.pend # "none"
     THEN {[s EXCEPT !.hs[i].pc = "hung"]}            \* second send on the 1-slot channel nobody reads
-    ELSE {[Drop(s, i) EXCEPT !.pend = "KILLED", !.skDone = TRUE, !.doneBy = ReqOf(s, i), !.grand = FALSE,
+    ELSE LET t == [Answer(s, i, ~GroupThere(s)) EXCEPT      \* kill(-pid, SIGKILL): ESRCH when nothing of the group is left
+                             !.pend = "KILLED", !.skDone = TRUE, !.doneBy = ReqOf(s, i), !.grand = FALSE,
                              !.child = IF s.child = "running" THEN "exiting" ELSE @,
-                             !.how = IF s.child = "running" THEN "sig" ELSE @]}
+                             !.how = IF s.child = "running" THEN "sig" ELSE @]
+         IN \* a child that was told to exit may still be there for the SIGKILL to end it
+            IF s.child = "exiting" /\ s.how \in {"e0", "e3"} THEN {t, [t EXCEPT !.how = "sig"]} ELSE {t}
 DoStopBody(s, i) ==
   IF IsBody(s, i, {"STOP"}) /\ s.kind = "basic"
     THEN IF ~s.cmd    \* (after a Kill forgot taskCmd the stop is a no-op: what survives is the Kill's doing)
-           THEN {[Drop(s, i) EXCEPT !.skDone = TRUE, !.doneBy = IF s.doneBy.r = "Kill" THEN @ ELSE ReqOf(s, i)]}
+           THEN {[Answer(s, i, FALSE) EXCEPT !.skDone = TRUE, !.doneBy = IF s.doneBy.r = "Kill" THEN @ ELSE ReqOf(s, i)]}
          ELSE IF s.ps = "nil"
            THEN IF DevStopNilDeref THEN {[s EXCEPT !.exec = "panicked", !.panBy = ReqOf(s, i)]} ELSE StopKillPath(s, i)
-         ELSE IF s.ps = "exited" THEN {[Drop(s, i) EXCEPT !.skDone = TRUE, !.doneBy = ReqOf(s, i)]}
+         ELSE IF s.ps = "exited" THEN {[Answer(s, i, FALSE) EXCEPT !.skDone = TRUE, !.doneBy = ReqOf(s, i)]}
          ELSE StopKillPath(s, i)
     ELSE {}
-StopAnswersError(s) == s.cmd /\ s.ps = "signaled" /\ ~GroupThere(s)   \* kill(-pid): ESRCH
 
 (* basicTaskBase.Kill: taskCmd = nil; `go sendStatus(TASK_FINISHED)`; then the handler deletes the task ... *)
 DoKillBodyBasic(s, i) ==
   IF IsBody(s, i, {"Kill"}) /\ s.kind # "ctl"
-    THEN {[s EXCEPT !.hs[i].pc = "send", !.cmd = FALSE, !.active = FALSE, !.skDone = TRUE,
+    THEN {[s EXCEPT !.hs[i].pc = "send", !.cmd = FALSE, !.active = FALSE, !.skDone = TRUE, !.closeBy = ReqOf(s, i),
                     !.killAt = KillAt(s), !.doneBy = ReqOf(s, i),
                     !.killBy = IF KillAt(s) # s.killAt THEN ReqOf(s, i) ELSE @]}
     ELSE {}
@@ -212,19 +223,26 @@ DoKillSend(s, i) ==
                              !.termBy = IF s.termBy.r = "Kill" /\ s.termBy.nth > s.hs[i].nth THEN @ ELSE ReqOf(s, i)]}
     ELSE {}
 
-(* reaper goroutine of startBasicTask: taskCmd.Wait() returns (this is what sets ProcessState) ... *)
+(* reaper goroutine of startBasicTask, first statement: `taskCmd := t.taskCmd` - read when the
+   goroutine gets to run; a Kill that has set t.taskCmd = nil in the meantime makes taskCmd.Wait() a nil
+   dereference.  (nullBy: the Kill to blame, kept in closeBy, which basic tasks do not use otherwise) *)
+DoReaperStart(s) ==
+  IF s.kind # "ctl" /\ s.rst = "pending" /\ Ok(s)
+    THEN IF DevReaperField /\ ~s.cmd THEN {[s EXCEPT !.exec = "panicked", !.panBy = s.closeBy]}
+         ELSE {[s EXCEPT !.rst = "done"]}
+    ELSE {}
+(* ... taskCmd.Wait() returns (this is what sets ProcessState) ... *)
 NaturalFinal(s) == IF s.how = "e0" THEN "FINISHED" ELSE "FAILED"
 DoWaitRet(s) ==
-  IF s.kind # "ctl" /\ s.child = "exiting" /\ Ok(s)
-    THEN {[s EXCEPT !.child = "waited", !.ps = IF s.how = "sig" THEN "signaled" ELSE "exited"]}
+  IF s.kind # "ctl" /\ s.child = "exiting" /\ s.rst = "done" /\ Ok(s)
+    THEN {[s EXCEPT !.child = "waited", !.ps = IF s.how = "sig" THEN "signaled" ELSE "exited", !.pend = "none",
+                    !.rfin = [final |-> IF s.pend # "none" THEN s.pend ELSE NaturalFinal(s), vol |-> s.pend = "none"]]}
     ELSE {}
-(* ... FINISHED/FAILED; pending state from the channel if any; BASIC_TASK_TERMINATED device event -
-   no status update *)
+(* ... (FINISHED/FAILED, or the pending state taken from the channel just above) goes out as a
+   BASIC_TASK_TERMINATED device event - no status update *)
 DoReap(s) ==
   IF s.kind # "ctl" /\ s.child = "waited" /\ Ok(s)
-    THEN {[s EXCEPT !.child = "reaped", !.pend = "none",
-                    !.btt = Append(@, [final |-> IF s.pend # "none" THEN s.pend ELSE NaturalFinal(s),
-                                       vol |-> s.pend = "none"])]}
+    THEN {[s EXCEPT !.child = "reaped", !.btt = Append(@, s.rfin)]}
     ELSE {}
 
 (* ========================= controllable tasks ========================= *)
@@ -260,11 +278,16 @@ DoLPollTimeout(s) ==
     THEN {[s EXCEPT !.lpc = "done", !.rpc = "nil", !.sent = Append(@, "FAILED")]}
     ELSE {}
 
-(* ... taskCmd.Wait returned: FINISHED/FAILED, pending state from the channel if any, t.rpc = nil, sendStatus *)
-DoLWait(s) ==
+(* ... taskCmd.Wait returned: FINISHED/FAILED, pending state from the channel if any, t.rpc = nil ... *)
+DoLWaitRet(s) ==
   IF s.kind = "ctl" /\ s.lpc = "wait" /\ s.child = "exiting" /\ Ok(s)
-    THEN {[s EXCEPT !.lpc = "done", !.child = "reaped", !.rpc = "nil", !.pend = "none",
-                    !.sent = Append(@, IF s.pend # "none" THEN s.pend ELSE NaturalFinal(s))]}
+    THEN {[s EXCEPT !.lpc = "send", !.child = "reaped", !.rpc = "nil", !.pend = "none",
+                    !.rfin = [final |-> IF s.pend # "none" THEN s.pend ELSE NaturalFinal(s), vol |-> FALSE]]}
+    ELSE {}
+(* ... sendStatus(final) *)
+DoLWait(s) ==
+  IF s.kind = "ctl" /\ s.lpc = "send" /\ Ok(s)
+    THEN {[s EXCEPT !.lpc = "done", !.sent = Append(@, s.rfin.final)]}
     ELSE {}
 
 (* ControllableTask.Transition: UnmarshalTransition fails when t.rpc == nil (no answer is sent);
@@ -272,13 +295,17 @@ DoLWait(s) ==
 OccDst(r) == IF r = "CONFIGURE" THEN "CONFIGURED" ELSE "RUNNING"
 OccSrc(r) == IF r = "CONFIGURE" THEN "STANDBY" ELSE "CONFIGURED"
 TransOk(s, r) == s.rpc = "up" /\ Listening(s) /\ s.dev = OccSrc(r)
+MaybeAlive(s) == s.child = "exiting" /\ s.rel /\ s.beh # "noready"
 DoTransBody(s, i) ==      \* UnmarshalTransition
   IF IsBody(s, i, {"CONFIGURE", "START"}) /\ s.kind = "ctl"
     THEN IF s.rpc = "up" THEN {[s EXCEPT !.hs[i].pc = "commit"]} ELSE {Drop(s, i)}
     ELSE {}
 DoTransCommit(s, i) ==    \* cmd.Commit() over gRPC, then the answer (an error if the device or the client is gone)
   IF i \in 1..Len(s.hs) /\ s.hs[i].pc = "commit" /\ Ok(s)
-    THEN IF TransOk(s, s.hs[i].r) THEN {[Drop(s, i) EXCEPT !.dev = OccDst(s.hs[i].r)]} ELSE {Drop(s, i)}
+    THEN IF TransOk(s, s.hs[i].r) THEN {[Answer(s, i, FALSE) EXCEPT !.dev = OccDst(s.hs[i].r)]}
+         ELSE IF s.rpc = "up" /\ MaybeAlive(s) /\ s.dev = OccSrc(s.hs[i].r)     \* a child told to exit may still answer
+           THEN {[Answer(s, i, FALSE) EXCEPT !.dev = OccDst(s.hs[i].r)], Answer(s, i, TRUE)}
+         ELSE {Answer(s, i, TRUE)}
     ELSE {}
 
 (* ControllableTask.Kill, first part: t.rpc.GetState (nil dereference when there is no client);
@@ -290,7 +317,7 @@ DoKBody(s, i) ==
                   walked == [s EXCEPT !.dev = "DONE", !.hs[i].pc = "close", !.hs[i].reached = "DONE", !.killAt = KillAt(s), !.killBy = kb]
                   broke == [s EXCEPT !.hs[i].pc = "close", !.hs[i].reached = "OTHER", !.killAt = KillAt(s), !.killBy = kb]
                   \* a child told to exit may still answer; two Kills walking the device at once trip over each other
-                  maybe == (s.child = "exiting" /\ s.rel /\ s.beh # "noready" /\ s.dev # "INIT")
+                  maybe == MaybeAlive(s) /\ s.dev # "INIT"
                   other == \E j \in 1..Len(s.hs) : j # i /\ s.hs[j].r = "Kill"
               IN IF Listening(s) /\ s.dev # "INIT"
                    THEN IF other THEN {walked, [broke EXCEPT !.dev = "DONE"]} ELSE {walked}
@@ -330,9 +357,9 @@ DoKEnd(s, i) ==
 
 HIdx(s) == 1..Len(s.hs)
 Succ(s) ==
-  DoLaunch(s) \cup UNION {DoReq(s, r) : r \in Requests} \cup DoRelease(s) \cup DoProc(s) \cup DoTimer(s)
-  \cup DoWaitRet(s) \cup DoReap(s) \cup DoLDial(s) \cup DoLDialTimeout(s) \cup DoLPoll(s) \cup DoLPollTimeout(s) \cup DoLWait(s)
-  \cup UNION {DoNoopBody(s, i) \cup DoStartBody(s, i) \cup DoStopBody(s, i) \cup DoKillBodyBasic(s, i)
+  DoLaunch(s) \cup UNION {DoReq(s, r) : r \in Reqs} \cup DoRelease(s) \cup DoProc(s) \cup DoTimer(s)
+  \cup DoReaperStart(s) \cup DoWaitRet(s) \cup DoReap(s) \cup DoLDial(s) \cup DoLDialTimeout(s) \cup DoLPoll(s) \cup DoLPollTimeout(s) \cup DoLWaitRet(s) \cup DoLWait(s)
+  \cup UNION {DoNoopBody(s, i) \cup DoRespond(s, i) \cup DoStartBody(s, i) \cup DoStopBody(s, i) \cup DoKillBodyBasic(s, i)
               \cup DoKillSend(s, i) \cup DoTransBody(s, i) \cup DoTransCommit(s, i) \cup DoKBody(s, i) \cup DoKClose(s, i) \cup DoKTerm(s, i) \cup DoKInt(s, i)
               \cup DoKKill9(s, i) \cup DoKEnd(s, i) : i \in HIdx(s)}
 
@@ -344,14 +371,17 @@ Req(r) == \E t \in DoReq(S, r) : Set(t)
 Release == \E t \in DoRelease(S) : Set(t)
 Proc == \E t \in DoProc(S) : Set(t)
 Timer == \E t \in DoTimer(S) : Set(t)
+ReaperStart == \E t \in DoReaperStart(S) : Set(t)
 WaitRet == \E t \in DoWaitRet(S) : Set(t)
 Reap == \E t \in DoReap(S) : Set(t)
 LDial == \E t \in DoLDial(S) : Set(t)
 LDialTimeout == \E t \in DoLDialTimeout(S) : Set(t)
 LPoll == \E t \in DoLPoll(S) : Set(t)
 LPollTimeout == \E t \in DoLPollTimeout(S) : Set(t)
+LWaitRet == \E t \in DoLWaitRet(S) : Set(t)
 LWait == \E t \in DoLWait(S) : Set(t)
 NoopBody(i) == \E t \in DoNoopBody(S, i) : Set(t)
+Respond(i) == \E t \in DoRespond(S, i) : Set(t)
 StartBody(i) == \E t \in DoStartBody(S, i) : Set(t)
 StopBody(i) == \E t \in DoStopBody(S, i) : Set(t)
 KillBodyBasic(i) == \E t \in DoKillBodyBasic(S, i) : Set(t)
@@ -366,9 +396,9 @@ KKill9(i) == \E t \in DoKKill9(S, i) : Set(t)
 KEnd(i) == \E t \in DoKEnd(S, i) : Set(t)
 
 Next ==
-  \/ Launch \/ (\E r \in Requests : Req(r)) \/ Release \/ Proc \/ Timer \/ WaitRet \/ Reap
-  \/ LDial \/ LDialTimeout \/ LPoll \/ LPollTimeout \/ LWait
-  \/ \E i \in 1..MaxReq : NoopBody(i) \/ StartBody(i) \/ StopBody(i) \/ KillBodyBasic(i) \/ KillSend(i)
+  \/ Launch \/ (\E r \in Reqs : Req(r)) \/ Release \/ Proc \/ Timer \/ ReaperStart \/ WaitRet \/ Reap
+  \/ LDial \/ LDialTimeout \/ LPoll \/ LPollTimeout \/ LWaitRet \/ LWait
+  \/ \E i \in 1..MaxReq : NoopBody(i) \/ Respond(i) \/ StartBody(i) \/ StopBody(i) \/ KillBodyBasic(i) \/ KillSend(i)
                           \/ TransBody(i) \/ TransCommit(i) \/ KBody(i) \/ KClose(i) \/ KTerm(i) \/ KInt(i) \/ KKill9(i) \/ KEnd(i)
 
 Spec == Init /\ [][Next]_vars
@@ -380,7 +410,7 @@ TypeOK ==
   /\ child \in {"none", "running", "exiting", "waited", "reaped"} /\ ps \in {"nil", "exited", "signaled"}
   /\ pend \in {"none", "KILLED", "FINISHED"} /\ procd <= Len(sent) /\ Len(hs) <= MaxReq
   /\ \A i \in 1..Len(sent) : sent[i] \in {"RUNNING", "FINISHED", "FAILED", "KILLED"}
-  /\ rpc \in {"nil", "up"} /\ lpc \in {"none", "dial", "poll", "wait", "done"}
+  /\ rpc \in {"nil", "up"} /\ lpc \in {"none", "dial", "poll", "wait", "send", "done"}
 
 (* at most one terminal status, and nothing after it *)
 OneTerminalOf(q) == \A i \in 1..Len(q) : Terminal(q[i]) => i = Len(q)
@@ -389,7 +419,7 @@ OneTerminal == OneTerminalOf(sent)
 (* a task killed on request (the kill arrived before the child went away on its own) is not reported failed *)
 (* (own = the child went away on its own at some point - then FAILED may be the truth) *)
 KilledNotFailedOf(q, at, own) == at > 0 /\ ~own => \A i \in at..Len(q) : q[i] # "FAILED"
-Own(s) == s.rel \/ (s.vstart /\ s.beh = "crash")
+Own(s) == s.rel \/ (s.beh = "crash" /\ s.child # "none")
 KilledNotFailed == KilledNotFailedOf(sent, killAt, Own(S))
 
 (* once a STOP of a basic task was answered, or a Kill was carried out, nothing of the group is left running *)
